@@ -5,76 +5,56 @@
   sees it: `Prog` has no such field, so equal programs mean equal results from every API.
 -/
 import RxModel.Model.Compile
+import RxModel.Proofs.XsdLemmas
 namespace Rx.C17
 open Rx
-
-/-- the pattern contains neither `^` nor `$` -/
-def noAnchorChars (pat : List Nat) : Bool := pat.all (fun c => c != 94 && c != 36)
-
-mutual
-/-- no XPath-only construct in a compiled tree: no anchors, no reluctant repeat, no back-reference -/
-def xsdOnly : Op → Bool
-  | .bol | .eol => false
-  | .backref _ => false
-  | .rfixed _ _ _ _ => false
-  | .rep _ c _ _ g => g && xsdOnly c
-  | .capture _ c => xsdOnly c
-  | .choice bs => xsdOnlyL bs
-  | .seq ops => xsdOnlyL ops
-  | .gfixed c _ _ _ => xsdOnly c
-  | .unamb c _ _ => xsdOnly c
-  | _ => true
-termination_by structural o => o
-def xsdOnlyL : List Op → Bool
-  | [] => true
-  | o :: os => xsdOnly o && xsdOnlyL os
-termination_by structural l => l
-end
 
 /-- lock-step: whatever the XSD parser accepts (on a pattern without `^`/`$`) the XPath parser
     accepts with the same tree and the same final compiler state -/
 theorem parse_xsd_subset (env : Env) (fl : CFlags) (hx : fl.xsd = true) (pat : List Nat)
     (hna : noAnchorChars pat = true) (fuel : Nat) (s : PS) (top : Bool) (op : Op) (s' : PS)
     (h : parseExpr { pat := pat, fl := fl, env := env } fuel s top = .ok op s') :
-    parseExpr { pat := pat, fl := { fl with xsd := false }, env := env } fuel s top = .ok op s' := by
-  sorry
+    parseExpr { pat := pat, fl := { fl with xsd := false }, env := env } fuel s top = .ok op s' :=
+  (parse_le { pat := pat, fl := fl, env := env } hx (noAnch_of pat fl env hna) fuel).1 s top op s' h
 
 /-- … hence the same program (so every API agrees; `Prog` does not record the dialect) -/
 theorem compile_xsd_subset (env : Env) (fl : CFlags) (hx : fl.xsd = true) (pat : List Nat)
     (hna : noAnchorChars pat = true) (opt : Bool) (pr : Prog)
     (h : compileCore env fl pat opt = .ok pr) :
-    compileCore env { fl with xsd := false } pat opt = .ok pr := by
-  sorry
+    compileCore env { fl with xsd := false } pat opt = .ok pr :=
+  compileCore_le env fl hx pat (noAnch_of pat fl env hna) opt pr h
 
 /-- the XSD parser never produces an anchor, a reluctant repeat or a back-reference -/
 theorem parse_xsd_only (env : Env) (fl : CFlags) (hx : fl.xsd = true) (pat : List Nat)
     (fuel : Nat) (s : PS) (top : Bool) (op : Op) (s' : PS)
     (h : parseExpr { pat := pat, fl := fl, env := env } fuel s top = .ok op s') :
     xsdOnly op = true ∧ (s.hasBackrefs = false → s'.hasBackrefs = false) := by
-  sorry
+  have hp := (parse_ok { pat := pat, fl := fl, env := env } hx s.hasBackrefs fuel).1 s top rfl op s' h
+  exact ⟨hp.1, fun hs => hp.2.trans hs⟩
 
 /-- flag q is rejected in the XSD dialect -/
 theorem xsd_rejects_q (pre post : List Nat) (hpre : ∀ c ∈ pre, c ≠ 59) :
-    parseFlags (pre ++ 113 :: post) true = none := by
-  sorry
+    parseFlags (pre ++ 113 :: post) true = none :=
+  parseFlagsGo_q pre post hpre _ rfl
 
 /-- the same flag string is accepted by both dialects unless it contains q -/
 theorem flags_dialect (fs : List Nat) (fl : Flags) (h : parseFlags fs true = some fl) :
-    parseFlags fs false = some { fl with xsd := false } := by
-  sorry
+    parseFlags fs false = some { fl with xsd := false } :=
+  parseFlagsGo_dialect fs _ fl h
 
 /-- in the XSD dialect `^` and `$` are ordinary characters: the parser's terminal step on them is
     the atom parser -/
 theorem xsd_anchor_is_atom (c : PC) (hx : c.fl.xsd = true) (f : Nat) (s : PS)
     (h : c.at s.idx = 94 ∨ c.at s.idx = 36) :
     parseTerminal c (f + 1) s = parseAtom c s := by
-  sorry
+  rw [parseTerminal]
+  rcases h with h | h <;> simp [h, hx]
 
 /-- … and the atom parser takes them into the atom -/
 theorem xsd_anchor_pushed (c : PC) (hx : c.fl.xsd = true) (f : Nat) (s : PS) (ub : List Nat)
     (hlt : s.idx < c.len) (h : c.at s.idx = 94 ∨ c.at s.idx = 36)
     (hnq : ¬ (s.idx + 1 < c.len ∧ isQuantChar (c.at (s.idx + 1)) = true ∧ ub ≠ [])) :
-    parseAtomGo c (f + 1) s ub = parseAtomGo c f { s with idx := s.idx + 1 } (ub ++ [c.at s.idx]) := by
-  sorry
+    parseAtomGo c (f + 1) s ub = parseAtomGo c f { s with idx := s.idx + 1 } (ub ++ [c.at s.idx]) :=
+  parseAtomGo_anchor_pushed c hx f s ub hlt h hnq
 
 end Rx.C17
